@@ -16,6 +16,10 @@ EXPLANATION = (
     "reinterprets it as before dereferencing; unwrap_shared_ptr validates before the cast and returns a "
     "copy; create_object releases what it allocated. Numeric round-trip equality (byte order, narrowing of "
     "sizes to int) and object lifetime over call histories are run-time facts and are not decided.")
+EXPLANATION += (
+    " K8: every return of a wrap<T>/unwrap<T> specialisation hands back a value that depends (def-use closure over "
+    "initialisers, assignments, element stores and memcpy-like calls in the clang AST) on the function's argument; a path "
+    "returning a default-constructed or constant value (an 'empty input' short-cut that loses the shape) is reported.")
 ASSUMPTIONS = [
     "clang 14 parser/Sema; the stubs under /verif/stubs declare the documented MEX C API signatures",
     "LP64 size table (the 32-bit arm of mxUINT32OR64_CLASS is analysed in the thorough tier when the "
@@ -33,6 +37,7 @@ def run(ctx, rep):
     rep.require_min("K5", 10)
     rep.run(RH.rule_error_terminal, ctx, rep, "K6")
     rep.run(RH.rule_handle_protocol, ctx, rep, "K7")
+    rep.run(RH.rule_returns_depend_on_argument, ctx, rep, "K8")
 
 
 def run_thorough(ctx, rep):
